@@ -9,3 +9,4 @@ open Pcore.Lat
 #print axioms C01_unsound_only_by_rule
 #print axioms C01_sound_type_receiver
 #print axioms C01_type_callable_witness
+#print axioms C01_sound_type_receiver_callable
